@@ -45,7 +45,7 @@ def strategy_(draw, tier):
         return {"producer": producer, "struct": struct}
     if producer == "constructor":
         mol = draw(st.one_of(gens.mols(tier, wide=True), gens.fam_er(110, wide=True)))
-        return {"producer": producer, "mol": mol, "order": draw(gens.perms(len(mol["atoms"])))}
+        return {"producer": producer, "mol": mol, "order": draw(gens.perms(len(mol["atoms"]))), "post": draw(st.sampled_from(["none", "none", "relabel", "recanon"]))}
     mol = draw(st.one_of(gens.mols(tier, families=("er", "skeleton", "chem", "er")), gens.fam_er(110)))
     n, m = len(mol["atoms"]), len(mol["bonds"])
     if producer == "v3000":
@@ -76,7 +76,9 @@ def check(case, stats):
         g = call("parse", graph_from_tucan, s0)
     elif prod == "constructor":
         mol = Mol.from_json(case["mol"])
-        g = mol_to_graph(mol, case["order"])
+        from .c01 import post_process
+
+        g = post_process(mol_to_graph(mol, case["order"]), {"post": case.get("post", "none"), "pi": case["order"]})
     else:
         mol = Mol.from_json(case["mol"])
         if prod == "v2000":
